@@ -11,7 +11,11 @@ PROP = {'rule': 'rapid-generated cases: node capacity (1-256 cpu, 1 GiB-4 TiB), 
          'between 0 and the percentage cap. batchMonotone: one consumption input raised (or a metric with usage==request deleted); '
          'non-trivial = the raise strictly lowered a published amount (or, for the deleted metric, the base amount was positive). '
          'batchStale: non-trivial = metrics degraded (no update time / older than the window) . mid: non-trivial = non-static mode with '
-         'a positive amount below the threshold cap, or a raise that strictly lowered an amount. distinct = FNV-64 of the full case.',
+         'a positive amount below the threshold cap, or a raise that strictly lowered an amount. reconcileHistory: the real '
+         'NodeResourceReconciler.Reconcile against a fake client over a generated history (NodeMetric absent from the start / never '
+         'reported / fresh / stale / deleted through the delete handler / re-created, pods added and removed, node heartbeats, '
+         'controller clock steps, node optionally starting with old amounts), reconciled after every step; non-trivial = a reconcile '
+         'with unusable metrics found amounts on the node and had to withdraw them. distinct = FNV-64 of the full case.',
  'assumptions': ['a reported NodeMetric status always carries status.nodeMetric together with status.updateTime (what koordlet writes); '
                  'the never-reported case (empty status) is generated separately in batchStale',
                  'pods carry only legal priority/QoS combinations; container limits are never set without a request (API-server '
@@ -30,7 +34,11 @@ PROP = {'rule': 'rapid-generated cases: node capacity (1-256 cpu, 1 GiB-4 TiB), 
                  '(the code also charges those with an empty priority; the oracle does not demand it)',
                  'zone bounds use the code\'s documented approximation: system usage, reservation and unbound pods are split evenly '
                  'over the zones, NUMA-bound pods evenly over their zones',
-                 'tolerance 2 units (milli-cpu / byte) for the two float multiplications (safety margin, percentage cap)'],
+                 'tolerance 2 units (milli-cpu / byte) for the two float multiplications (safety margin, percentage cap)',
+                 'reconcileHistory: a reconcile may follow any step (node events and resyncs trigger it); only the withdrawal clause is '
+                 'asserted on the Node object (published amounts may lag a fresh calculation by design: resourceDiffThreshold / '
+                 'updateTimeThresholdSeconds); the plugins read the wall clock there, so update times are relative to time.Now(): fresh '
+                 '<= 2 min old with a degrade window >= 30 min, stale >= 1 h beyond the window'],
  'units': [{'name': 'batch',
             'pkg': 'pkg/slo-controller/noderesource/plugins/batchresource',
             'files': ['C09/c09_batch_test.go'],
@@ -45,7 +53,7 @@ PROP = {'rule': 'rapid-generated cases: node capacity (1-256 cpu, 1 GiB-4 TiB), 
            {'name': 'reconcile',
             'pkg': 'pkg/slo-controller/noderesource',
             'files': ['C09/c09_reconcile_test.go'],
-            'tests': [{'run': 'TestVerifC09ReconcileHistory', 'quick': 1500, 'thorough': 4000}]}],
+            'tests': [{'run': 'TestVerifC09ReconcileHistory', 'quick': 600, 'thorough': 3000}]}],
  'manifest': {'technique': 'property-based testing (rapid): generated node/strategy/pod/metric/topology inputs with an exact-rational '
                            'bound oracle and metamorphic monotonicity relations',
               'text': 'Generated-input search over Plugin.Calculate of the batch and mid resource plugins (node path and NUMA-zone path '
